@@ -189,6 +189,12 @@ static void ecpNegJ(word b[], const word a[], const ec_o* ec, void* stack)
 	ASSERT(ecIsOperable(ec) && ec->d == 3);
 	ASSERT(ecpSeemsOn3(a, ec));
 	ASSERT(wwIsSameOrDisjoint(a, b, 3 * n));
+	// a == O => b <- O (координаты X, Y точки O не определены)
+	if (qrIsZero(ecZ(a, n), ec->f))
+	{
+		qrSetZero(ecZ(b, n), ec->f);
+		return;
+	}
 	// xb <- xa
 	qrCopy(ecX(b), ecX(a), ec->f);
 	// yb <- -ya
@@ -598,6 +604,12 @@ void ecpSubJ(word c[], const word a[], const word b[], const ec_o* ec,
 	ASSERT(ecpSeemsOn3(b, ec));
 	ASSERT(wwIsSameOrDisjoint(a, c, 3 * n));
 	ASSERT(wwIsSameOrDisjoint(b, c, 3 * n));
+	// b == O => c <- a (координаты X, Y точки O не определены)
+	if (qrIsZero(ecZ(b, n), ec->f))
+	{
+		wwCopy(c, a, 3 * n);
+		return;
+	}
 	// t <- -b
 	qrCopy(ecX(t), ecX(b), ec->f);
 	zmNeg(ecY(t, n), ecY(b, n), ec->f);
